@@ -35,6 +35,54 @@ fn run_case(bytes: &[u8], tape: &mut Tape, obs: &mut Obs) -> Option<(String, Str
     }
 }
 
+/// One delivery to the receiver node: run it, account for it, record a violation.
+#[allow(clippy::too_many_arguments)]
+fn delivery(dseed: u64, idx: u64, ctx: &mut Ctx<'_>, out: &mut Vec<Violation>, tr: &mut Rng, d: &[u8], faulted: bool, fired_kinds: u64, source: &str, faults_json: &dyn Fn() -> J, prov: &dyn Fn() -> J) {
+    let tape_vals: Vec<u32> = (0..TAPE_LEN).map(|_| tr.u32()).collect();
+    ctx.publish_raw(idx, d, &tape_vals);
+    let mut tape = Tape::replaying(tape_vals);
+    let mut obs = Obs::new(false);
+    let verdict = run_case(d, &mut tape, &mut obs);
+    ctx.stats.evaluations += 1;
+    ctx.stats.events += obs.events;
+    for (i, p) in obs.probes.iter().enumerate() {
+        if *p > 0 {
+            ctx.stats.probe(PROBE_NAMES[i], *p);
+        }
+    }
+    for (i, n) in ENTRY_NAMES.iter().enumerate() {
+        if obs.accepted & (1 << i) != 0 {
+            ctx.stats.count(&format!("accepted_by_{n}"), 1);
+        }
+    }
+    ctx.stats.trace_digest ^= fnv1a(dseed, &obs.hash.to_le_bytes());
+    if faulted && obs.accepted != 0 {
+        // non-trivial: a fault fired and the receiver went past a first validation
+        let lc = (d.len().min(4096) as u64 + 3) / 4;
+        ctx.stats.sig(&[obs.accepted as u64, fired_kinds, lc, verdict.is_some() as u64]);
+    }
+    let kind = match (faulted, obs.accepted != 0) {
+        (false, _) => "intact",
+        (true, false) => "faulted-rejected-everywhere",
+        (true, true) => "faulted-accepted-somewhere",
+    };
+    if ctx.stats.wants_sample(kind, idx) && d.len() <= 200 {
+        ctx.stats.sample(kind, idx, || {
+            J::obj()
+                .set("source", source)
+                .set("faults", faults_json())
+                .set("deliver", hex(d))
+                .set("accepted_by", J::Arr(ENTRY_NAMES.iter().enumerate().filter(|(i, _)| obs.accepted & (1 << i) != 0).map(|(_, n)| J::from(*n)).collect()))
+                .set("receiver_ops", obs.events)
+        });
+    }
+    if let Some((class, detail)) = verdict {
+        let used = tape.rec.len().min(TAPE_LEN);
+        let tape_used: Vec<u32> = tape_fixed_prefix(&tape, used);
+        out.push(Violation { class, detail, episode: idx, case: case_json(d, &tape_used), provenance: prov() });
+    }
+}
+
 impl Check for C01 {
     fn id(&self) -> &'static str {
         "C01"
@@ -90,55 +138,27 @@ impl Check for C01 {
                     }
                 }
             }
-            let tape_vals: Vec<u32> = (0..TAPE_LEN).map(|_| tr.u32()).collect();
-            ctx.publish(idx, || case_json(&d, &tape_vals));
-            let mut tape = Tape::replaying(tape_vals);
-            let mut obs = Obs::new(false);
-            let verdict = run_case(&d, &mut tape, &mut obs);
-            ctx.stats.evaluations += 1;
-            ctx.stats.events += obs.events;
-            for (i, p) in obs.probes.iter().enumerate() {
-                if *p > 0 {
-                    ctx.stats.probe(PROBE_NAMES[i], *p);
-                }
+            let prov = || bases[k].provenance().set("faults", J::Arr(applied.iter().map(|f| f.to_json()).collect())).set("swarm", fcfg.to_json());
+            let faults_json = || J::Arr(applied.iter().map(|f| f.to_json()).collect());
+            delivery(seed ^ k as u64, idx, ctx, out, &mut tr, &d, !applied.is_empty(), fired_kinds, bases[k].source, &faults_json, &prov);
+        }
+        // the 16-bit length field: a delivery of up to 256 KiB through every accessor, Debug
+        // rendering and iterator costs tens of milliseconds, so this consumer takes the values
+        // arithmetic is most likely to get wrong (about 70 in quick, about 800 in thorough); the
+        // full 65536-value sweep runs in C08 / C11 / C18
+        for v in crate::lensweep::values_for(idx) {
+            let wanted = if ctx.tier == Tier::Quick { crate::lensweep::is_key_value(v) } else { crate::lensweep::is_edge_value(v) };
+            if !wanted {
+                continue;
             }
-            for (i, n) in ENTRY_NAMES.iter().enumerate() {
-                if obs.accepted & (1 << i) != 0 {
-                    ctx.stats.count(&format!("accepted_by_{n}"), 1);
-                }
-            }
-            ctx.stats.trace_digest ^= fnv1a(seed ^ k as u64, &obs.hash.to_le_bytes());
-            let faulted = !applied.is_empty();
-            if faulted && obs.accepted != 0 {
-                // non-trivial: a fault fired and the receiver went past a first validation
-                let lc = (d.len().min(4096) as u64 + 3) / 4;
-                ctx.stats.sig(&[obs.accepted as u64, fired_kinds, lc, verdict.is_some() as u64]);
-            }
-            let kind = match (faulted, obs.accepted != 0) {
-                (false, _) => "intact",
-                (true, false) => "faulted-rejected-everywhere",
-                (true, true) => "faulted-accepted-somewhere",
-            };
-            if ctx.stats.wants_sample(kind, idx) && d.len() <= 200 {
-                let src = bases[k].source;
-                ctx.stats.sample(kind, idx, || {
-                    J::obj()
-                        .set("source", src)
-                        .set("faults", J::Arr(applied.iter().map(|f| f.to_json()).collect()))
-                        .set("deliver", hex(&d))
-                        .set("accepted_by", J::Arr(ENTRY_NAMES.iter().enumerate().filter(|(i, _)| obs.accepted & (1 << i) != 0).map(|(_, n)| J::from(*n)).collect()))
-                        .set("receiver_ops", obs.events)
-                });
-            }
-            if let Some((class, detail)) = verdict {
-                let used = tape.rec.len().min(TAPE_LEN);
-                let tape_used: Vec<u32> = tape_fixed_prefix(&tape, used);
-                out.push(Violation {
-                    class,
-                    detail,
-                    episode: idx,
-                    case: case_json(&d, &tape_used),
-                    provenance: bases[k].provenance().set("faults", J::Arr(applied.iter().map(|f| f.to_json()).collect())).set("swarm", fcfg.to_json()),
+            let mut frames: Vec<crate::lensweep::Frame> =
+                crate::lensweep::packet_frames(v, true).into_iter().filter(|f| f.b0 != 0x81 && f.pt != 0 && f.pt != 192 && (f.delta == 0 || (f.pt == 207 && f.delta.abs() == 1))).collect();
+            frames.extend(crate::lensweep::compound_frames(v).into_iter().filter(|f| f.pt != 201 && (f.trail || f.delta == 0)));
+            for fr in frames {
+                crate::lensweep::with_frame(&fr, |d| {
+                    ctx.stats.fault("hdr-length-sweep", 1);
+                    let desc = || J::Arr(vec![J::from(fr.describe())]);
+                    delivery(seed ^ v as u64, idx, ctx, out, &mut tr, d, true, 0x1e5, "length-field-sweep", &desc, &|| J::obj().set("source", fr.describe()));
                 });
             }
         }
